@@ -1634,10 +1634,26 @@ func resolveClosure(v ssa.Value, fr *Frame, d int) (*ssa.MakeClosure, *ssa.Funct
 	switch x := v.(type) {
 	case *ssa.MakeClosure:
 		fn, _ := x.Fn.(*ssa.Function)
-		if fn == nil || fn.Blocks == nil || fn.Parent() == nil {
+		if fn == nil || fn.Blocks == nil || (fn.Parent() == nil && !strings.Contains(fn.Synthetic, "bound method wrapper")) {
 			return nil, nil, nil
 		}
 		return x, fn, fr
+	case *ssa.UnOp:
+		// a function kept in a field of a struct that was assembled up the chain
+		// (sw := feedSwitch{apply: k.sk.StartRequestContext}; … sw.apply(ctx, …))
+		if x.Op == token.MUL {
+			if fa, ok := x.X.(*ssa.FieldAddr); ok {
+				if a, ok := fa.X.(*ssa.Alloc); ok {
+					if v2, fr2 := fieldOfAlloc(a, fa.Field, fr, d+1); v2 != nil {
+						return resolveClosure(v2, fr2, d+1)
+					}
+				}
+			}
+		}
+	case *ssa.Field:
+		if v2, fr2 := fieldOfValue(x.X, x.Field, fr, d+1); v2 != nil {
+			return resolveClosure(v2, fr2, d+1)
+		}
 	case *ssa.Function:
 		if x.Parent() != nil && x.Blocks != nil && len(x.FreeVars) == 0 {
 			return nil, x, fr // a function literal that captures nothing
@@ -1923,4 +1939,61 @@ func constThroughFrames(v ssa.Value, fr *Frame, d int) *ssa.Const {
 		return constThroughFrames(x.X, fr, d+1)
 	}
 	return nil
+}
+
+// fieldOfAlloc / fieldOfValue: the value stored into field f of a struct, followed through
+// whole-struct copies and parameter passing up the call chain; with the frame it lives in.
+func fieldOfAlloc(a *ssa.Alloc, f int, fr *Frame, d int) (ssa.Value, *Frame) {
+	if d > 10 || a.Referrers() == nil {
+		return nil, nil
+	}
+	var fieldSt, wholeSt []*ssa.Store
+	for _, r := range *a.Referrers() {
+		switch x := r.(type) {
+		case *ssa.FieldAddr:
+			if x.Field != f || x.Referrers() == nil {
+				continue
+			}
+			for _, r2 := range *x.Referrers() {
+				if st, ok := r2.(*ssa.Store); ok && st.Addr == ssa.Value(x) {
+					fieldSt = append(fieldSt, st)
+				}
+			}
+		case *ssa.Store:
+			if x.Addr == ssa.Value(a) {
+				wholeSt = append(wholeSt, x)
+			}
+		}
+	}
+	switch {
+	case len(fieldSt) == 1 && len(wholeSt) == 0:
+		return fieldSt[0].Val, fr
+	case len(fieldSt) == 0 && len(wholeSt) == 1:
+		return fieldOfValue(wholeSt[0].Val, f, fr, d+1)
+	}
+	return nil, nil
+}
+
+func fieldOfValue(v ssa.Value, f int, fr *Frame, d int) (ssa.Value, *Frame) {
+	if d > 10 {
+		return nil, nil
+	}
+	switch x := v.(type) {
+	case *ssa.Parameter:
+		if fr == nil || fr.Call == nil || fr.Call.Common().IsInvoke() {
+			return nil, nil
+		}
+		for i, p := range x.Parent().Params {
+			if p == x && i < len(fr.Call.Common().Args) {
+				return fieldOfValue(fr.Call.Common().Args[i], f, argsFrame(fr), d+1)
+			}
+		}
+	case *ssa.UnOp:
+		if x.Op == token.MUL {
+			if a, ok := x.X.(*ssa.Alloc); ok {
+				return fieldOfAlloc(a, f, fr, d+1)
+			}
+		}
+	}
+	return nil, nil
 }
